@@ -13,6 +13,8 @@
    Variant selects deliberately broken variants that TLC must reject (non-vacuity):
      "nopop"      cffi_closure_alloc returns the head without unlinking it
      "doublefree" the closure is put back on the free list twice
+     "doublefree-on-oom"  the exit of b_callback taken when PyObject_GC_New() fails frees the closure
+                  itself and then falls into the common error label, which frees it again
      "stalebind"  user_data is not rewritten when a freed closure is reused
      "overlap"    more_core carves one item more than fits and spills into the next block's range *)
 EXTENDS ClosuresIdeal, TLC
@@ -60,8 +62,21 @@ Create(c, s) ==         \* ffi.callback(sig, fn): b_callback
     /\ sig' = Set(sig, c, s)
     /\ CreateE(c, Item) /\ Ev("create", c, Item, <<>>, <<>>, <<>>, 0, 0)
 
-CreateFail ==           \* b_callback on a signature libffi cannot do: alloc, then Py_DECREF(cd) frees
-    /\ Grow /\ fl' = Pushed(Item, AfterAlloc)
+\* b_callback fails after cffi_closure_alloc() has popped a closure.  The exits of the real code:
+\*   "gcnew"    PyObject_GC_New() returns NULL (out of memory): goto error with cd == NULL, the error
+\*              label calls cffi_closure_free(closure)
+\*   "cif"      ct->ct_extra == NULL (unsupported / variadic signature: NotImplementedError)
+\*   "prep"     ffi_prep_closure() != FFI_OK (SystemError)
+\*   "userdata" closure->user_data != infotuple (SystemError, issue #266)
+\*              in these three cd exists: the error label does Py_DECREF(cd) and
+\*              cdataowninggc_dealloc calls cffi_closure_free(closure)
+\* In every case the closure is given back exactly once.
+FailPoints == {"gcnew", "cif", "prep", "userdata"}
+FreedAfterFail(pt, a, l) ==
+    IF Variant = "doublefree-on-oom" /\ pt = "gcnew" THEN <<a, a>> \o l ELSE Pushed(a, l)
+CreateFail(pt) ==
+    /\ pt \in FailPoints
+    /\ Grow /\ fl' = FreedAfterFail(pt, Item, AfterAlloc)
     /\ UNCHANGED <<live, last, bind, sig>>
 
 Drop(c) ==              \* cdataowninggc_dealloc
@@ -77,7 +92,7 @@ Call(c) ==              \* through the cdata or from C: the trampoline at live[c
     /\ CallE(c) /\ UNCHANGED <<fl, npages, nblocks, bind, sig>>
 
 Next == \/ \E c \in Cbs, s \in Sigs : Create(c, s)
-        \/ CreateFail
+        \/ \E pt \in FailPoints : CreateFail(pt)
         \/ \E c \in Cbs : Drop(c)
         \/ \E c \in Cbs : Call(c)
 Spec == Init /\ [][Next]_vars
